@@ -7,6 +7,7 @@ exit 2: infrastructure failure of the machinery itself (a bug to fix, not a find
 """
 import sys, os, argparse, importlib, traceback, json
 sys.path.insert(0, os.path.dirname(os.path.abspath(__file__)))
+sys.path.insert(0, os.path.join(os.path.dirname(os.path.abspath(__file__)), "checks"))
 import vlib
 
 
@@ -18,7 +19,12 @@ def main():
     a = ap.parse_args()
     seed = int(os.environ.get("VERIF_SEED", "0") or 0)
     ctx = vlib.Ctx(a.pid, a.tier, seed)
-    mod = importlib.import_module(f"checks.{a.pid}")
+    try:
+        mod = importlib.import_module(f"checks.{a.pid}")
+    except Exception:
+        traceback.print_exc()
+        print(f"[{a.pid}] INFRASTRUCTURE ERROR (cannot import the check)", file=sys.stderr)
+        sys.exit(2)
     try:
         if a.replay:
             rc = mod.replay(ctx, json.load(open(a.replay)))
